@@ -548,9 +548,15 @@ impl MonitorSet {
                     Some(k) => (&p[..k], &p[k + 3..]),
                     None => (p.as_str(), ""),
                 };
-                let m = m.split(", raft_id").next().unwrap_or(m);
-                let head: String = m.chars().take(70).collect();
-                self.fail(&format!("panic:{}", head), format!("node {} (role {:?}, term {}) panicked in {} at {}", pre.snap.id, pre.snap.role, pre.snap.term, call_brief(c), loc));
+                let flat = m.replace('\n', " ");
+                let first_line = m.lines().next().unwrap_or("");
+                let first_line = first_line.split(", raft_id").next().unwrap_or(first_line);
+                let mut head: String = first_line.chars().take(70).collect();
+                if head.starts_with("assertion") {
+                    let base = loc.rsplit('/').next().unwrap_or(loc);
+                    head = format!("{} @ {}", head, base);
+                }
+                self.fail(&format!("panic:{}", head), format!("node {} (role {:?}, term {}) panicked in {} at {}: {}", pre.snap.id, pre.snap.role, pre.snap.term, call_brief(c), loc, flat));
             }
             return;
         }
